@@ -63,13 +63,26 @@ func endsWithComment(n *recipe.Node) bool {
 func InjectComments(fr *recipe.File, d *recipe.Decisions, rate int, text func() string) (*recipe.File, []Placed) {
 	out := fr.Clone()
 	var placed []Placed
+	// a comment is added with Comment(text), with Commentf(format) where format is the text with
+	// its percent signs doubled (no operands), or with Commentf("%s", text)
+	commentCall := func(t string) recipe.Call {
+		switch d.Choose(4) {
+		case 1:
+			return recipe.Call{Fn: "Commentf", Str: []recipe.Text{recipe.Text(strings.ReplaceAll(t, "%", "%%"))}}
+		case 2:
+			return recipe.Call{Fn: "Commentf", Str: []recipe.Text{"%s"}, Args: []*recipe.Value{recipe.V(t)}}
+		}
+		return recipe.Call{Fn: "Comment", Str: []recipe.Text{recipe.Text(t)}}
+	}
 	var visit func(n *recipe.Node)
 	inject := func(items []*recipe.Node, host string) []*recipe.Node {
 		res := make([]*recipe.Node, 0, len(items)+2)
 		for i := 0; i <= len(items); i++ {
 			if d.Choose(rate) == 0 {
 				t := text()
-				res = append(res, recipe.S().C("Comment", t))
+				own := recipe.S()
+				own.Calls = append(own.Calls, commentCall(t))
+				res = append(res, own)
 				placed = append(placed, Placed{Text: t, Host: host, Pos: "own-item"})
 			}
 			if i == len(items) {
@@ -79,7 +92,7 @@ func InjectComments(fr *recipe.File, d *recipe.Decisions, rate int, text func() 
 			visit(it)
 			if it != nil && it.Kind == recipe.KStmt && len(it.Calls) > 0 && !endsInCaseBody(it) && !endsWithComment(it) && d.Choose(rate) == 0 {
 				t := text()
-				it.Calls = append(it.Calls, recipe.Call{Fn: "Comment", Str: []recipe.Text{recipe.Text(t)}})
+				it.Calls = append(it.Calls, commentCall(t))
 				pos := "end-of-item"
 				if i == len(items)-1 {
 					pos = "end-of-last-item"
